@@ -74,7 +74,7 @@ import (
 
 var (
 	c10PairRounds = flag.Int("c10.pairrounds", 0, "C10 pair: rounds of every generated scenario (0 = the scenario's own number)")
-	c10PairForce  = flag.String("c10.pairforce", "", "C10 pair (diagnostics): comma list of stamped / unstamped / noskew (override the generated scenario) and count (go on after a failing case and print it)")
+	c10PairForce  = flag.String("c10.pairforce", "", "C10 pair (diagnostics): comma list of stamped / unstamped / noskew (override the generated scenario), count (go on after a failing case and print it) and trace (print what every case cost)")
 	c10PairSpin   = flag.Int("c10.pairspin", 300, "C10 pair: loads a waiting racer spins before it starts yielding")
 	c10PairFull   = flag.Int("c10.pairfull", 4096, "C10 pair: one round in that many is given to the full judges whatever its canonical form")
 )
@@ -91,9 +91,10 @@ type PairScenario struct {
 	Rounds  int      `json:"rounds"`
 	Witness *History `json:"witness,omitempty"`
 	// Family: "" = a writer to what exists against a value-dependent delete (this file);
-	// "access" = accessors against root transitions (c10_pairaccess_test.go). Labels only.
+	// "access" = accessors against root transitions (c10_pairaccess_test.go); "move" = writers that move the truth of
+	// the condition between leaves against conditional deletes (c10_pairmove_test.go). Labels only.
 	Family string `json:"family,omitempty"`
-	// State: (access) what the setup leaves behind (labels only)
+	// State: (access) what the setup leaves behind; (move) the shape of the writers' programs (labels only)
 	State string `json:"state,omitempty"`
 }
 
@@ -272,7 +273,8 @@ func (p *pairRun) lead() {
 			return
 		}
 		p.rounds++
-		fin := HOp{G: p.n, Kind: "final"}
+		// (a large tree is read back through WalkSorted: the canonical form needs the leaves in order anyway)
+		fin := HOp{G: p.n, Kind: "final", Sorted: len(p.setupT) > 16}
 		fnow := p.now
 		if !p.stamped {
 			k := int64(0)
@@ -424,8 +426,11 @@ func (p *pairRun) judgeRound(setup []HOp, fin *HOp, r int64) (stop bool) {
 	}
 	h := p.history(setup, fin)
 	p.stats.judgedFull++
-	if p.sc.Family == "access" {
+	switch p.sc.Family {
+	case "access":
 		accessLabels(h, p.stats.lab)
+	case "move":
+		moveLabels(h, p.stats.lab)
 	}
 	f, inc := judgeSmall(h, true)
 	if f != nil {
@@ -453,7 +458,12 @@ func runPair(sc *PairScenario, rounds int) (labels []string, nontrivial bool, do
 	p.stats.lab = map[string]bool{}
 	p.spin = runtime.GOMAXPROCS(0) >= 2*n
 	for i, o := range sc.Setup {
-		p.setupT = append(p.setupT, burstHOp(99, o, 10+i))
+		// (unique values: setup 20..179 and from 2160 on, racers 202..; a setup of the move family has hundreds of leaves)
+		u := 10 + i
+		if i >= 80 {
+			u = 1000 + i
+		}
+		p.setupT = append(p.setupT, burstHOp(99, o, u))
 	}
 	p.base = int64(2*len(sc.Setup) + 1)
 	for g, prog := range sc.Racers {
@@ -471,8 +481,11 @@ func runPair(sc *PairScenario, rounds int) (labels []string, nontrivial bool, do
 	}
 	stuck, deadlock := watched("ctreeprop.(*pairRun).worker", *c10Stall, *c10Confirm, wg.Wait)
 	lab := pairStaticLabels(sc)
-	if sc.Family == "access" {
+	switch sc.Family {
+	case "access":
 		lab = accessStaticLabels(sc)
+	case "move":
+		lab = moveStaticLabels(sc)
 	}
 	if stuck != "" {
 		if deadlock {
@@ -656,7 +669,13 @@ func runPairPart(t *testing.T, part string, gen func(*rapid.T) *PairScenario) {
 		if *c10PairRounds > 0 {
 			rounds = *c10PairRounds
 		}
+		caseStart := time.Now()
 		labels, nontrivial, n, fail := runPair(sc, rounds)
+		if strings.Contains(*c10PairForce, "trace") {
+			// diagnostics: what every case cost
+			fmt.Printf("CASE %d setup=%d racers=%d rounds=%d in %v (%.0f rounds/s) hit=%v %v\n", cases, len(sc.Setup), len(sc.Racers), n, time.Since(caseStart).Round(time.Millisecond),
+				float64(n)/time.Since(caseStart).Seconds(), fail != nil, labels)
+		}
 		if fail != nil && strings.Contains(*c10PairForce, "count") {
 			// diagnostics: count the failing cases instead of stopping at the first
 			b, _ := json.Marshal(sc.Racers)
